@@ -190,7 +190,7 @@ def install(P):
         ty = norm_ty(ty)
         am = getattr(P, "assoc_metadata", None)
         if am:      # `<L as Layer>::Metadata`: the harness binds the buildpack's associated metadata type
-            ty = re.sub(r"<[\w:]+ as [\w:]*Layer>::Metadata", am, ty)
+            ty = re.sub(r"<[\w:]+ as [\w:]*(?:Layer|Buildpack)>::Metadata", am, ty)
         if isinstance(tv, MissingDeser):
             h, a = T.head_args(ty)
             if h == "Option":
@@ -261,7 +261,9 @@ def install(P):
         if h == "tuple" and not a:
             return Ok(UNIT)
         # user type: derived / hand-written impl in MIR
-        name = find_fn("deserialize", first_param="__D", ret=ty) or find_fn("deserialize", first_param="D", ret=ty)
+        name = find_fn("deserialize", first_param="__D", ret=ty)
+        if name is None or isinstance(name, tuple):
+            name = find_fn("deserialize", first_param="D", ret=ty)
         if name is None or isinstance(name, tuple):
             raise Unsupported(f"serde: no Deserialize impl found in MIR for {ty} ({name})")
         f = P.funcs[name]
